@@ -128,6 +128,7 @@ type c35StreamCase struct {
 	Len8     bool     `json:"length_as_8_byte_varint"`
 	Fin      int      `json:"fin_at_byte"`
 	Bytewise bool     `json:"one_packet_per_byte"`
+	Tail     bool     `json:"last_byte_in_the_packet_carrying_fin"`
 }
 
 func (x c35StreamCase) bytes() []byte {
@@ -392,9 +393,25 @@ func c35ErrClass(err error) string {
 	return "other"
 }
 
-// c35Write sends b on qs (bytewise: one packet per byte, the peer drains each
-// before the next is sent) and then FIN.
-func c35Write(qs *quic.Stream, b []byte, bytewise bool) error {
+// c35Write sends b and FIN on qs. Default: one STREAM frame carrying
+// everything. bytewise: one packet per byte, the peer drains each before the
+// next is sent, FIN in a packet of its own. tail: everything but the last byte
+// first; once the peer has drained that, the last byte and FIN together (the
+// QUIC stream then hands the reader data and io.EOF in the same Read).
+func c35Write(qs *quic.Stream, b []byte, bytewise, tail bool) error {
+	if tail && len(b) > 1 {
+		if _, err := qs.Write(b[:len(b)-1]); err != nil {
+			return err
+		}
+		if err := qs.Flush(); err != nil {
+			return err
+		}
+		synctest.Wait()
+		// as for bytewise: the peer may have refused the stream already
+		qs.Write(b[len(b)-1:])
+		qs.CloseWrite()
+		return nil
+	}
 	if bytewise {
 		for i := range b {
 			// The peer may already have made up its mind and sent STOP_SENDING
@@ -409,9 +426,6 @@ func c35Write(qs *quic.Stream, b []byte, bytewise bool) error {
 		}
 	} else if len(b) > 0 {
 		if _, err := qs.Write(b); err != nil {
-			return err
-		}
-		if err := qs.Flush(); err != nil {
 			return err
 		}
 	}
@@ -430,7 +444,7 @@ func c35Bubble(c *vx.Ctx, o *c35Obs, f func(t *testing.T)) {
 
 // c35RunServerStream plays b (+FIN) on a fresh request stream of a fresh real
 // server connection.
-func c35RunServerStream(c *vx.Ctx, b []byte, bytewise bool) *c35Obs {
+func c35RunServerStream(c *vx.Ctx, b []byte, bytewise, tail bool) *c35Obs {
 	o := &c35Obs{}
 	c35Bubble(c, o, func(t *testing.T) {
 		var mu sync.Mutex
@@ -453,7 +467,7 @@ func c35RunServerStream(c *vx.Ctx, b []byte, bytewise bool) *c35Obs {
 			o.harnessErr = "NewStream: " + err.Error()
 			return
 		}
-		if err := c35Write(qs, b, bytewise); err != nil {
+		if err := c35Write(qs, b, bytewise, tail); err != nil {
 			o.harnessErr = "write: " + err.Error()
 			return
 		}
@@ -467,7 +481,7 @@ func c35RunServerStream(c *vx.Ctx, b []byte, bytewise bool) *c35Obs {
 
 // c35RunClientStream starts a real RoundTrip on a fresh real client
 // connection and plays b (+FIN) as the response stream.
-func c35RunClientStream(c *vx.Ctx, b []byte, bytewise bool) *c35Obs {
+func c35RunClientStream(c *vx.Ctx, b []byte, bytewise, tail bool) *c35Obs {
 	o := &c35Obs{}
 	c35Bubble(c, o, func(t *testing.T) {
 		tc := newTestClientConn(t)
@@ -497,7 +511,7 @@ func c35RunClientStream(c *vx.Ctx, b []byte, bytewise bool) *c35Obs {
 		}
 		st := tc.streams[streamTypeRequest][0]
 		qs := st.stream.stream
-		if err := c35Write(qs, b, bytewise); err != nil {
+		if err := c35Write(qs, b, bytewise, tail); err != nil {
 			o.harnessErr = "write: " + err.Error()
 			return
 		}
@@ -526,16 +540,22 @@ func c35CheckStream(w *vx.W, x c35StreamCase) {
 	var o *c35Obs
 	head := c35ReqSection
 	if x.Side == "server" {
-		o = c35RunServerStream(c, b, x.Bytewise)
+		o = c35RunServerStream(c, b, x.Bytewise, x.Tail)
 	} else {
 		head = c35RespSection
-		o = c35RunClientStream(c, b, x.Bytewise)
+		o = c35RunClientStream(c, b, x.Bytewise, x.Tail)
 	}
 	if o.harnessErr != "" {
 		c.T.Fatalf("C35 harness error on %+v: %s", x, o.harnessErr)
 	}
 	pre := "C35/" + x.Side + "-stream/"
-	desc := fmt.Sprintf("%s under test, peer sends %x then FIN (frames %v, fin at %d of %d)", x.Side, b, x.Seq, x.Fin, len(all))
+	mode := "one packet"
+	if x.Bytewise {
+		mode = "one packet per byte"
+	} else if x.Tail {
+		mode = "last byte together with FIN"
+	}
+	desc := fmt.Sprintf("%s under test, peer sends %x then FIN (frames %v, fin at %d of %d, %s)", x.Side, b, x.Seq, x.Fin, len(all), mode)
 	obs := fmt.Sprintf("message accepted=%v body=%x bodyErr=%v roundTripErr=%v peer stream read=%s conn=%s", o.msg, o.body, o.bodyErr, o.rtErr, c35ErrClass(o.peerErr), c35ErrClass(o.connErr))
 	if o.panicked != "" {
 		w.Failf(pre+"panic", "%s: panic: %s", desc, o.panicked)
@@ -814,7 +834,7 @@ func c35CheckCtl(w *vx.W, x c35CtlCase) {
 
 func TestVerif_C35(t *testing.T) {
 	vx.Run(t, "C35", func(c *vx.Ctx) {
-		c.Rule("stream part: frame sequences over {HEADERS(valid head), HEADERS(trailers), DATA of 0/1/5 bytes, unknown types 0x21 / 0x40 / 0x1f*2^56+0x21, SETTINGS, GOAWAY, PUSH_PROMISE (thorough: + CANCEL_PUSH, MAX_PUSH_ID), HTTP/2-reserved types 0x02 0x09 (thorough: + 0x06 0x08)}: every sequence of length <= 2, every sequence of length 3 (thorough: 4) that starts with the head or with an unknown frame followed by the head; each with frame lengths encoded minimally and as 8-byte varints (quick: 8-byte only for sequences of <= 2 frames), and the stream FIN at EVERY byte offset of the encoded sequence; sequences of length <= 2 also delivered one byte per packet; played against the real server (request stream) and the real client (response stream of a RoundTrip) by a raw QUIC peer. control part: stream type in {control, push, QPACK encoder, QPACK decoder, reserved 0x21, 2-byte unknown, truncated varint} x every sequence of <= 2 (thorough: 3) control frames from a 23-entry alphabet (SETTINGS variants incl. duplicate / reserved HTTP/2 identifiers / content running past the frame, DATA, HEADERS, GOAWAY, CANCEL_PUSH, MAX_PUSH_ID, PUSH_PROMISE, unknown, HTTP/2-reserved) x {open, FIN} and a duplicate stream of the type, against server and client. non-trivial = the case ran to quiescence and the delivered body bytes, end-of-body error, stream reset code and connection close code were compared with the reference frame parser")
+		c.Rule("stream part: frame sequences over {HEADERS(valid head), HEADERS(trailers), DATA of 0/1/5 bytes, unknown types 0x21 / 0x40 / 0x1f*2^56+0x21, SETTINGS, GOAWAY, PUSH_PROMISE (thorough: + CANCEL_PUSH, MAX_PUSH_ID), HTTP/2-reserved types 0x02 0x09 (thorough: + 0x06 0x08)}: every sequence of length <= 2, every sequence of length 3 (thorough: 4) that starts with the head or with an unknown frame followed by the head; each with frame lengths encoded minimally and as 8-byte varints (quick: 8-byte only for sequences of <= 2 frames), and the stream FIN at EVERY byte offset of the encoded sequence; delivery: everything and FIN in one STREAM frame; for minimal encodings also with the last byte arriving together with FIN after the rest was consumed; sequences of length <= 2 also one byte per packet; played against the real server (request stream) and the real client (response stream of a RoundTrip) by a raw QUIC peer. control part: stream type in {control, push, QPACK encoder, QPACK decoder, reserved 0x21, 2-byte unknown, truncated varint} x every sequence of <= 2 (thorough: 3) control frames from a 23-entry alphabet (SETTINGS variants incl. duplicate / reserved HTTP/2 identifiers / content running past the frame, DATA, HEADERS, GOAWAY, CANCEL_PUSH, MAX_PUSH_ID, PUSH_PROMISE, unknown, HTTP/2-reserved) x {open, FIN} and a duplicate stream of the type, against server and client. non-trivial = the case ran to quiescence and the delivered body bytes, end-of-body error, stream reset code and connection close code were compared with the reference frame parser")
 		c.Assume("left open (recorded as outcomes, not judged): the error code used to refuse a message that does not start with HEADERS or contains a forbidden frame, HTTP/2-reserved frame types (skip or refuse), a frame *header* cut by FIN, FIN on a control stream, which of H3_FRAME_ERROR-carrying places reports a truncation (body Read error, RoundTrip error, stream reset code, connection close code all count)")
 		c.Assume("the QUIC layer delivers stream bytes and FIN faithfully (C19/C20); the in-memory network is loss-free")
 
@@ -840,6 +860,13 @@ func TestVerif_C35(t *testing.T) {
 							if len(seq) <= 2 && !len8 {
 								y := x
 								y.Bytewise = true
+								if !yield(y) {
+									return false
+								}
+							}
+							if !len8 && fin > 1 {
+								y := x
+								y.Tail = true
 								if !yield(y) {
 									return false
 								}
